@@ -2,7 +2,7 @@
    ExtrOcamlBasic only: bool, option, list, prod, unit, sumbool are mapped to
    OCaml's own; nat, positive, N stay Coq inductives. No Extract Constant. *)
 From Coq Require Import Extraction ExtrOcamlBasic.
-From PegV Require Import Utf8 State Terminals TerminalsSpec Syntax Fields Literals Model Spec Hooks Pretty BuildScript Compile WellFormed Subst LRTerm Extracted.
+From PegV Require Import Utf8 State Terminals TerminalsSpec Syntax Fields Literals Model Spec Hooks Pretty BuildScript Compile WellFormed Subst LRTerm OnceWF Extracted.
 Extraction Language OCaml.
 
 Definition m_parse_std :=
@@ -21,7 +21,7 @@ Definition derives_ok_std := Compile.derives_ok Extracted.x_idents_checked_run.
 Definition fields_ok_std := Subst.fields_ok_b Extracted.fcfg_run.
 
 Extraction "model.ml"
-  WellFormed.well_formed LRTerm.well_formed_lr Subst.grel_b fields_ok_std Model.grammar_size
+  WellFormed.well_formed LRTerm.well_formed_lr OnceWF.well_formed_once Subst.grel_b fields_ok_std Model.grammar_size
   compile_std idents_ok_std derives_ok_std Extracted.x_raw_kw_guard_run
   pretty_exec Pretty.pretty_spec
   Utf8.decode_str Utf8.encode_str
